@@ -15,6 +15,7 @@
 -/
 import DDS.Proofs.Proto
 import DDS.Proofs.SketchDefs
+import DDS.Props.C04Pag
 
 namespace DDS.Props.C09
 open DDS DDS.Proto
@@ -118,8 +119,29 @@ example : ∃ bs, streamStore d3 = some bs ∧ parseStore {} bs =
   obtain ⟨bs, hbs⟩ := Option.isSome_iff_exists.mp d3_stream_some
   exact ⟨bs, hbs, parseStore_stream_exact d3 d3_keys _ _ d3_toProto hbs⟩
 
-/-- a paginated store holding the indexes 3, 3, 40 -/
-def pg3 : Store := .pg { PStore.new with buffer := [3, 40, 3] }
+/-- a paginated store: the one reached from `PStore.new` by adding index 3, index 40 (with a
+    compaction), index 3 again (C04Pag gives its bins: `{3 ↦ 2, 40 ↦ 1}`) -/
+def pgOps : List PStore.Op := [.add 3 1 false, .add 40 1 true, .add 3 1 false]
+
+example : ∃ s, PStore.run PStore.new pgOps = some s ∧ StoreKeys32 (.pg s) ∧
+    storeToProto (.pg s) = some { binCounts := [(3, ratBits 2), (40, ratBits 1)] } ∧
+    ∀ bs, streamStore (.pg s) = some bs →
+      parseStore {} bs = .ok { binCounts := [(3, ratBits 2), (40, ratBits 1)] } := by
+  obtain ⟨s, h1, _, h3, _, h5, _⟩ := C04Pag.history_observers pgOps (by
+    intro op hop
+    simp [pgOps] at hop
+    rcases hop with rfl | rfl | rfl <;> exact ⟨⟨by decide, by decide⟩, by decide⟩)
+  have hc : PStore.specRun [] pgOps = [(3, 2), (40, 1)] := by decide +kernel
+  rw [hc] at h3 h5
+  have hk : StoreKeys32 (.pg s) := by
+    intro _ p hp
+    rw [h3] at hp
+    simp at hp
+    rcases hp with rfl | rfl <;> decide
+  have hp : storeToProto (.pg s) = some { binCounts := [(3, ratBits 2), (40, ratBits 1)] } := by
+    simp only [storeToProto, h5, h3]
+    rfl
+  exact ⟨s, h1, hk, hp, fun bs hbs => parseStore_stream_exact _ hk _ bs hp hbs⟩
 
 /-! ### the whole sketch -/
 
@@ -204,6 +226,10 @@ example : ∀ msg, toProto (Sketch.spec (some m102) [(-2, 1), (0, 5 / 2), (7, 3)
   · show F64.le (F64.ofBits 0x3FF051EB851EB852) (.fin 1) = false
     rw [hγ, MapId.le_fin]; norm_num
   · exact F64.toBits_ofBits_rep 2 (by decide +kernel)
+
+/-- without representability of the weights the statement is false: the rational `1/3` is not a
+    binary64 number, its bit pattern is that of the float below it, and that is what comes back -/
+example : weightOf (ratBits (1 / 3)) ≠ some (1 / 3) := by decide +kernel
 
 /-! ### sparse and contiguous bins of one message add up -/
 
